@@ -566,6 +566,55 @@ def deferred_kinds(d, loop):
     d.reach()
 
 
+class _Rearm(OneShotTask):
+    """a one-shot task that installs itself again from inside its own callback, once"""
+
+    def __init__(self, log, w, gap):
+        OneShotTask.__init__(self)
+        self.log, self.w, self.gap, self.rearmed = log, w, gap, False
+
+    def process_task(self):
+        self.log.append(self.w.tm.get_time())
+        if not self.rearmed:
+            self.rearmed = True
+            self.install_task(when=self.w.tm.get_time() + self.gap)
+
+
+@meta(bounds="a one-shot task due at 1 s whose callback installs it again `gap` seconds later (gap symbolic 1..4); after the first "
+             "firing, at a symbolic instant before the second is due, the application does one of: nothing / installs it for "
+             "another (symbolic) time / cancels it with the library's own idiom `if task.isScheduled: task.suspend_task()` / "
+             "calls suspend_task outright; the firings afterwards are exactly what that leaves: the re-armed time, the new "
+             "time only (moved, not duplicated), or none",
+      outside="tasks that re-arm themselves more than once; recurring tasks (they re-install themselves by design: `recurring`)",
+      stubs=STUBS, assumes=[EXACT])
+def self_rearm(d):
+    w = World()
+    log = []
+    gap = d.int(1, 4, 'gap')
+    t = _Rearm(log, w, gap)
+    t.install_task(when=1.0)
+    w.run(until=1.0, max_loops=20)
+    if log != [1.0]:
+        raise Violation("rearm-first-firing", fired=list(log))
+    op = d.pick(["none", "reinstall", "guarded-suspend", "suspend"], 'op')
+    want = [1.0]
+    if op == "none":
+        want.append(1.0 + gap)
+    elif op == "reinstall":
+        x = d.int(2, 7, 'new_time')
+        t.install_task(when=float(x))
+        want.append(float(x))
+    elif op == "guarded-suspend":
+        if t.isScheduled:
+            t.suspend_task()
+    else:
+        t.suspend_task()
+    w.run(until=9.0, max_loops=40)
+    if log != want:
+        raise Violation("rearm-firings", op=op, gap=gap, fired=list(log), want=want)
+    d.reach()
+
+
 def _prefixes(k):
     out = [[]]
     for _ in range(k):
@@ -626,6 +675,7 @@ def instances(tier):
                     budget=90 if q else 600, path_timeout=120, label="reinstall"))
     for re_ in (False, True):
         out.append(Inst(recurring_near_slot, dict(reinstall=re_), budget=90, label="reinstall" if re_ else "install"))
+    out.append(Inst(self_rearm, {}, budget=90))
     out.append(Inst(sched_close, dict(n=2 if q else 3), budget=90 if q else 300))
     if q:
         out.append(Inst(sched_close, dict(n=3), budget=120))
